@@ -226,26 +226,30 @@ Lemma upd_app {A} (done : list A) n todo f : upd (done ++ n :: todo) (length don
 Proof. unfold upd. rewrite set_nth_app. reflexivity. Qed.
 
 Lemma member_ok_spec b m : member_ok b m = true ->
-  0 <= md_type m <= 2 /\ in_int64 (md_ref m) /\ sid_ok b (md_role m) = true.
+  - two31 <= md_type m < two31 /\ in_int64 (md_ref m) /\ sid_ok b (md_role m) = true.
 Proof.
   unfold member_ok. intros H.
   apply andb_prop in H. destruct H as [H Hs]. apply andb_prop in H. destruct H as [H Hr].
-  apply andb_prop in H. destruct H as [H0 H2]. apply in64_spec in Hr.
-  apply Z.leb_le in H0. apply Z.leb_le in H2. split; [lia|]. split; assumption.
+  apply in64_spec in Hr. apply in32_spec in H. split; [exact H|]. split; assumption.
 Qed.
+
+Lemma repeat_member0_type k : Forall (fun n => m_type n = -1) (repeat member0 k).
+Proof. induction k; simpl; constructor; [reflexivity | assumption]. Qed.
 
 Lemma members_enc b : forall ms prev done todo,
   forallb (member_ok b) ms = true -> length todo = length ms ->
+  Forall (fun n => m_type n = -1) todo ->
   members_loop (b_strings b) (map (fun m => enc_int (md_role m)) ms) (deltas64 prev (map md_ref ms))
                (map (fun m => enc_int (md_type m)) ms) prev (length done) (done ++ todo)
   = Ok (done ++ map (member_of b) ms).
 Proof.
-  induction ms as [|m ms IH]; intros prev done todo H Hl.
+  induction ms as [|m ms IH]; intros prev done todo H Hl Hty.
   - destruct todo; [|discriminate]. cbn [map deltas64 members_loop]. unfold full.
     rewrite app_nil_r, Nat.eqb_refl. reflexivity.
   - destruct todo as [|n todo]; [discriminate|]. simpl in Hl. injection Hl as Hl.
     cbn [forallb] in H. apply andb_prop in H. destruct H as [Hm Hms].
     destruct (member_ok_spec b m Hm) as (Ht & Hr & Hs).
+    inversion Hty as [|n' todo' Hn Hty']; subst n' todo'.
     pose proof (sid_ok_spec b (md_role m) Hs) as [Hro Hro'].
     cbn [map deltas64 members_loop].
     rewrite upd_app. cbn [rbind].
@@ -254,14 +258,13 @@ Proof.
     rewrite upd_app. cbn [rbind].
     rewrite upd_app. cbn [rbind].
     rewrite (delta64_roundtrip prev (md_ref m) Hr).
-    rewrite (int32_enc (md_type m)) by (unfold two31; lia).
+    rewrite (int32_enc (md_type m)) by exact Ht.
     replace (done ++ set_ref_type (md_ref m) (md_type m) (set_role (str b (md_role m)) n) :: todo)
       with ((done ++ [member_of b m]) ++ todo).
     + replace (S (length done)) with (length (done ++ [member_of b m])) by (rewrite app_length, Nat.add_1_r; reflexivity).
-      rewrite (IH (md_ref m) (done ++ [member_of b m]) todo Hms Hl). rewrite <- app_assoc. reflexivity.
-    + rewrite <- app_assoc. simpl. unfold set_ref_type, set_role, member_of. simpl.
-      replace ((0 <=? md_type m) && (md_type m <=? 2)) with true by (symmetry; apply andb_true_intro; split; lia).
-      reflexivity.
+      rewrite (IH (md_ref m) (done ++ [member_of b m]) todo Hms Hl Hty'). rewrite <- app_assoc. reflexivity.
+    + rewrite <- app_assoc. simpl. unfold set_ref_type, set_role, member_of, mtype_meaning. simpl.
+      rewrite Hn. reflexivity.
 Qed.
 
 Lemma rel_ok_spec b r : rel_ok b r = true ->
@@ -281,7 +284,8 @@ Proof.
   unfold scan_relation, enc_rel, rel_of.
   cbn [rd_id rd_hasinfo rd_fields rd_info rd_tags rd_forcetags rd_members rd_forcemembers].
   pose proof (scan_tags_enc b tags Htags) as Et.
-  pose proof (members_enc b ms 0 [] (repeat member0 (length ms)) Hmem (repeat_length _ _)) as Em.
+  pose proof (members_enc b ms 0 [] (repeat member0 (length ms)) Hmem (repeat_length _ _)
+                (repeat_member0_type _)) as Em.
   assert (Ei : hasinfo = true -> info_loop (bp b) (enc_info fl info) info0 = Ok (meta b true fl info)).
   { intros E. subst hasinfo. apply info_enc. exact Hinfo. }
   destruct wc as [k1 k2 k3 k4 k5 k6 k7 k8].
